@@ -5,7 +5,8 @@ from ir_world import REL, REL_PARENT, REL_CHILD, tok_of_s, tok_of_val
 
 NAMES = ['', 'a', 'A', 'b', 'B', 'ab', 'Ab', 'aB', 'a[0]', 'a_0_', '&x', '&X', 'x-y', '1a', 'a b', 'c', 'C',
          'inst', 'INST', 'n1', 'N1']
-IDENTS = ['a', 'A', 'b', 'ab', 'AB', 'Ab', '&x', '&X', 'x_1', 'X_1', '1a', 'a-b', '&', 'a b', 'c', 'C', 'a\n', 'B_2\n']
+IDENTS = ['a', 'A', 'b', 'ab', 'AB', 'Ab', '&x', '&X', 'x_1', 'X_1', '1a', 'a-b', '&', 'a b', 'c', 'C', 'a\n', 'B_2\n',
+          'a\u00ba1', 'a\u0663', '&\u0663']   # word characters outside ASCII (no case mapping): never legal in an identifier
 USER_KEYS = ['k', 'K', 'prop', 'EDIF.rename']
 RELS = ['libs', 'defs', 'ports', 'cables', 'children', 'pins', 'wires']
 
@@ -164,6 +165,12 @@ class Gen:
                 self.pending = ch[1:]
                 self._touch(ch[0])
                 return ch[0]
+        if self.weights.get('dset', 0) and self.weights.get('create', 0) and self.r.random() < (0.04 if self.naming else 0.008):
+            ch = self.chain_policy_above()
+            if ch:
+                self.pending = ch[1:]
+                self._touch(ch[0])
+                return ch[0]
         kinds = list(self.weights)
         for _ in range(30):
             k = self.r.choices(kinds, [self.weights[x] for x in kinds])[0]
@@ -213,6 +220,34 @@ class Gen:
                               ['reorderwire', str(w), str(len(pins))] +
                               [('O%d.%d' % (n, self.w.index[id(nip)]) if t[1:] == '%d.%d' % (n, self.w.index[id(ip)]) else t) for t in pins]])
         return [first, ['setref', str(n), str(d)], last]
+
+    def chain_policy_above(self):
+        """work in one scope, assign a naming policy further up (library or netlist of that scope), keep working in
+        the same scope, work somewhere else for a moment, come back: a repeated name, a removal and a re-creation -
+        whatever the name bookkeeping remembers about "the scope I was just in" must follow the policy change"""
+        ds = self.ids('definition', lambda o: o.library is not None)
+        if not ds:
+            return None
+        d = self.r.choice(ds)
+        dd = self.w.objs[d]
+        lib = dd.library
+        up = lib if (lib.netlist is None or self.r.random() < 0.5) else lib.netlist
+        u = self.w.index.get(id(up))
+        if u is None:
+            return None
+        others = [x for x in self.ids('definition') if x != d]
+        rel = self.r.choice(['ports', 'cables', 'children'])
+        n1, n2 = self.r.sample(NAMES, 2)
+        mk = lambda par, nm: ['create', rel, str(par), tok_of_s(nm), '0', '0', '~']
+        cur = up._data.get('.NS')
+        newpol = 'EDIF' if cur != 'EDIF' else 'DEFAULT'
+        ops = [mk(d, n1), ['dset', str(u), tok_of_s('.NS'), 's:' + tok_of_s(newpol)], mk(d, n2)]
+        if others:
+            ops.append(mk(self.r.choice(others), n2))
+        else:
+            ops.append(['create', 'defs', str(self.w.index[id(lib)]), tok_of_s(n1), '0', '0', '~'])
+        ops.append(mk(d, self.r.choice([n2, n2.swapcase(), n1])))
+        return ops
 
     def chain_stale_proxy(self):
         """several steps on one outer pin through a proxy object the caller keeps: connect it to a wire through
